@@ -178,8 +178,12 @@ def gen_tz(rng):
         h = rng.choice((1, 5, 8, 11))
         return dt.timezone(-dt.timedelta(hours=h)), "minus-whole"
     if r < 0.96:
-        h = rng.choice((5, 9, -3))
-        return dt.timezone(dt.timedelta(hours=h, minutes=30)), "half-hour"
+        # offsets with a minutes part, on both sides of zero and on both sides
+        # of one hour (the sign must survive an hour count of zero)
+        sign, h, m = rng.choice(((1, 5, 30), (1, 9, 30), (-1, 3, 30), (-1, 0, 30),
+                                 (1, 0, 30), (-1, 0, 1), (-1, 0, 59), (1, 5, 45),
+                                 (-1, 9, 45), (1, 12, 45), (-1, 11, 59), (1, 0, 1)))
+        return dt.timezone(sign * dt.timedelta(hours=h, minutes=m)), "half-hour"
     # an offset with a seconds part (legal in Python, in no dialect)
     return dt.timezone(rng.choice((1, -1)) * dt.timedelta(
         hours=rng.choice((0, 5)), minutes=rng.choice((0, 30)),
